@@ -745,4 +745,37 @@ def late_handle(P, E):
                           "attached to the live subject", body=src)
         elif not emits:
             r.instance((owner, "no synchronous hand-over"), False)
+    # LH3: connectables.  The disconnect hook unsubscribes the source through the cell that the connect hook
+    # fills with the result of source.subscribe(..) - i.e. only after that call has returned.  A source that
+    # emits synchronously inside subscribe (a cold iterator) cannot be stopped when its last subscriber leaves
+    # during connect: the hook finds no handle (replay) or blocks on the connect's guard (ref_count, see L1).
+    for root in ("operators::ref_count::RefCount::new", "operators::replay::Replay::new"):
+        rb = P.body(root)
+        if rb is None:
+            r.error("anchor missing: %s" % root)
+            continue
+        up = down = None
+        for c in rb.calls:
+            for i, role in ROLE_API.get(c.path, {}).items():
+                cl = c.arg_closure(i)
+                if cl in P.bodies and role == "COUNT_UP":
+                    up = P.bodies[cl]
+                if cl in P.bodies and role == "COUNT_DOWN":
+                    down = P.bodies[cl]
+        if up is None or down is None:
+            r.error("LATE-HANDLE: connect / disconnect hooks not found in %s" % root)
+            continue
+        subs = [c for c in up.calls if atom(c) == "subscribe"]
+        reads = [c for c in down.calls if atom(c) == "sub_unsubscribe" and _hits(P, down, down.operand_prov(c.args[0]), "subscription")]
+        stored_after = False
+        for i in sorted(up.reach):
+            for st in up.blocks[i]["stmts"]:
+                if st["k"] == "assign" and len(st["lhs"]) > 1 and "*" in st["lhs"] and _hits(P, up, up.place_prov(st["lhs"]), "subscription"):
+                    stored_after = True
+        r.instance((root.rsplit("::", 1)[0], "LH3"), True, "subscribe calls %s, disconnect reads %s" % ([c.bb for c in subs], [c.bb for c in reads]))
+        if subs and reads and stored_after:
+            r.violate((root.rsplit("::", 1)[0], "disconnect during connect finds no handle"),
+                      "the source's Subscription is stored (for the disconnect hook) only after source.subscribe(..) has returned: "
+                      "a source that emits synchronously inside subscribe cannot be stopped when the last subscriber leaves "
+                      "during connect", body=up, line=subs[0].line)
     return r
